@@ -9,7 +9,8 @@ Nums == Boundary \cup Small
 F(t, name, e, len, limits) == [t |-> t, name |-> name, empty |-> e, len |-> len, limits |-> limits]
 NoLim == << <<0, 0>> >>
 Others == {F("Text", "customer_id", FALSE, <<>>, NoLim), F("Text", "select", TRUE, <<40>>, NoLim), F("Choice", "comment", FALSE, <<>>, NoLim),
-           F("DateTime", "key", TRUE, <<>>, NoLim), F("Pattern", "percent", FALSE, <<7>>, NoLim), F("Text", "audit", TRUE, <<3>>, NoLim)}
+           F("DateTime", "key", TRUE, <<>>, NoLim), F("Pattern", "percent", FALSE, <<7>>, NoLim), F("Text", "audit", TRUE, <<3>>, NoLim),
+           F("Text", "order", FALSE, <<12>>, NoLim)}
       \cup {F("Decimal", "window", FALSE, <<>>, << <<1, 0>>, <<3, 2>> >>), F("Decimal", "limit", TRUE, <<>>, << <<1, 0>>, <<9, 0>> >>),
             F("Decimal", "amount", FALSE, <<>>, << <<1, 3>>, <<2, 0>> >>), F("Decimal", "rate", TRUE, <<>>, << <<0, 2>>, <<0, 4>> >>),
             F("Decimal", "weight", FALSE, <<>>, << <<2, 1>>, <<5, 1>> >>)}
